@@ -13,6 +13,7 @@ import (
 	"verif/harness"
 	"verif/sim"
 	"verif/simcore"
+	"verif/simdisk"
 )
 
 // TestKey is a fixed age identity used for every encrypt composition.
@@ -23,7 +24,7 @@ type engine struct{}
 func init() { harness.Register(engine{}) }
 
 func (engine) Name() string    { return "storesim" }
-func (engine) Props() []string { return []string{"C01", "C12"} }
+func (engine) Props() []string { return []string{"C01", "C12", "C13"} }
 
 func (e engine) Gen(prop, tier string, run int, r *simcore.Rand) *harness.Plan {
 	switch prop {
@@ -31,6 +32,8 @@ func (e engine) Gen(prop, tier string, run int, r *simcore.Rand) *harness.Plan {
 		return genC01(tier, run, r)
 	case "C12":
 		return genC12(tier, run, r)
+	case "C13":
+		return genC13(tier, run, r)
 	}
 	return nil
 }
@@ -134,6 +137,10 @@ func (e engine) Exec(rc *harness.RunCtx, p *harness.Plan) *harness.Outcome {
 	switch p.Mode {
 	case "exact":
 		return execExact(rc, p, &cfg, ops)
+	case "enumerate", "single":
+		return execC13(rc, p, &cfg, ops)
+	case "amplify":
+		return execC13Amplify(rc, p, &cfg, ops)
 	}
 	return &harness.Outcome{Inconclusive: "unknown mode " + p.Mode}
 }
@@ -161,9 +168,30 @@ type session struct {
 }
 
 func newSession(rc *harness.RunCtx, cfg *Config) (*session, error) {
+	return newSessionEnv(rc, cfg, rc.Env, rc.Scratch)
+}
+
+// newSessionEnv builds a session over its own Env and scratch directory
+// (independent sub-runs of one plan).
+func newSessionEnv(rc *harness.RunCtx, cfg *Config, env *sim.Env, scratch string) (*session, error) {
 	s := &session{rc: rc, cfg: cfg}
-	s.world = sim.NewWorld(rc.Env, rc.Scratch)
-	kf := filepath.Join(rc.Scratch, "age.key")
+	if err := os.MkdirAll(scratch, 0o755); err != nil {
+		return nil, err
+	}
+	s.world = sim.NewWorld(env, scratch)
+	simdisk.Reset()
+	simdisk.SetHook(func(path, op string) string {
+		mut := op == "Write" || op == "WriteAt" || op == "Sync" || op == "Truncate" || op == "Punch" || op == "OpenFile"
+		kind, _ := env.Enter(nil, "disk", op, mut)
+		switch kind {
+		case sim.FErr, sim.FErrAfter:
+			return "err"
+		case sim.FShortWrite:
+			return "short-write"
+		}
+		return ""
+	})
+	kf := filepath.Join(scratch, "age.key")
 	if err := os.WriteFile(kf, []byte(TestKey+"\n"), 0o600); err != nil {
 		return nil, err
 	}
